@@ -236,3 +236,113 @@ def r8_leq_table_sizes(ctx):
 
 
 RULES += [r8_leq_table_sizes]
+
+
+def r10_oct_twin_lookups(ctx):
+    ctx.rule("C04.r10", "octagons (split_oct): a relation between two signed vertices s -> d that is derived from the BOUNDS of the "
+             "other operand is the path s -> twin(s) ... twin(d) -> d, so of the two bound lookups one starts at s (`lookup(s, "
+             "twin(s))`) and the other ends at d (`lookup(twin(d), d)`), with twin(v) = v + 1 for an even (positive) vertex and "
+             "v - 1 for an odd one, in each of the four parity cases of join, widening and inclusion", floor=12)
+    SO = "include/crab/domains/split_oct.hpp"
+    from ..match import guard_truth
+    n = 0
+    seen = set()
+    for fn in ctx.db.fns(SO):
+        if not (fn.get("cpk") or "").endswith("split_oct_domain"):
+            continue
+        body = fn["body"]
+        looks = []
+        for c, ps in walk_with_parents(body):
+            if not (is_call(c, name="lookup") and len(c.get("a", [])) == 3):
+                continue
+            a, b = strip(c["a"][0]), strip(c["a"][1])
+
+            def split(e):
+                if isinstance(e, dict) and e.get("k") == "ref":
+                    return e.get("id"), 0, e.get("n")
+                if isinstance(e, dict) and e.get("k") == "bin" and e.get("op") in ("+", "-"):
+                    l, r = strip(e.get("L")), strip(e.get("R"))
+                    if isinstance(l, dict) and l.get("k") == "ref" and isinstance(r, dict) and r.get("k") == "lit" and r.get("v") == "1":
+                        return l.get("id"), (1 if e["op"] == "+" else -1), l.get("n")
+                return None, None, None
+            va, da, na = split(a)
+            vb, db, nb = split(b)
+            if va is None or vb is None or va != vb or (da == 0) == (db == 0):
+                continue
+            looks.append({"c": c, "ps": ps, "var": va, "name": na, "first_is_v": da == 0, "delta": db if da == 0 else da})
+        if not looks:
+            continue
+        key = (fn["name"], fn.get("psig"))
+        if key in seen:
+            continue
+        g = paths.guards(body)
+        # pairs: two twin lookups on different variables under the same && / || / ! expression
+        pairs = []
+        for i, x in enumerate(looks):
+            for y in looks[i + 1:]:
+                if x["var"] == y["var"]:
+                    continue
+                common = [p for p in x["ps"] if p.get("k") in ("bin", "un", "if") and any(q is p for q in y["ps"])]
+                if common and common[-1].get("k") in ("bin", "un") or (common and common[-1].get("k") == "if" and
+                                                                       any(z is x["c"] for z in walk(common[-1].get("c"))) and
+                                                                       any(z is y["c"] for z in walk(common[-1].get("c")))):
+                    pairs.append((x, y))
+        if not pairs:
+            continue
+        seen.add(key)
+        src_votes = {}
+        for x, y in pairs:
+            for z in (x, y):
+                if z["first_is_v"]:
+                    src_votes[z["name"]] = src_votes.get(z["name"], 0) + 1
+        def _parity(z):
+            def even(c, vid=z["var"]):
+                p = cmp_parts(c)
+                if p and p[0] in ("==", "!=") and isinstance(strip(p[1]), dict) and strip(p[1]).get("k") == "bin" and strip(p[1]).get("op") == "%" and \
+                        isinstance(strip(strip(p[1]).get("L")), dict) and strip(strip(p[1]).get("L")).get("id") == vid:
+                    return 1 if p[0] == "==" else -1
+                return 0
+            return guard_truth(g.get(id(z["c"]), ()), even, body)
+        # only SIGNED vertices (the enclosing code distinguishes their parity) are subject to the path typing; in
+        # add_linear_leq & co. the vertices are the positive vertices of two variables and both bounds are looked up directly
+        pairs = [(x, y) for x, y in pairs if _parity(x) is not None and _parity(y) is not None]
+        src_votes = {}
+        for x, y in pairs:
+            for z in (x, y):
+                if z["first_is_v"]:
+                    src_votes[z["name"]] = src_votes.get(z["name"], 0) + 1
+        for x, y in pairs:
+            n += 1
+            errs = []
+            for z in (x, y):
+                def even(c, vid=z["var"]):
+                    p = cmp_parts(c)
+                    if p and p[0] in ("==", "!=") and isinstance(strip(p[1]), dict) and strip(p[1]).get("k") == "bin" and strip(p[1]).get("op") == "%" and \
+                            isinstance(strip(strip(p[1]).get("L")), dict) and strip(strip(p[1]).get("L")).get("id") == vid:
+                        return 1 if p[0] == "==" else -1
+                    return 0
+                ev = guard_truth(g.get(id(z["c"]), ()), even, body)
+                if ev is True and z["delta"] != 1:
+                    errs.append("`%s` is even (positive vertex) here, its twin is %s + 1" % (z["name"], z["name"]))
+                if ev is False and z["delta"] != -1:
+                    errs.append("`%s` is odd (negative vertex) here, its twin is %s - 1" % (z["name"], z["name"]))
+            if x["first_is_v"] == y["first_is_v"]:
+                errs.append("both lookups %s at their vertex; one must start at the source vertex and the other end at the destination "
+                            "vertex" % ("start" if x["first_is_v"] else "end"))
+            else:
+                s_name = x["name"] if x["first_is_v"] else y["name"]
+                best = max(src_votes, key=src_votes.get) if src_votes else s_name
+                if s_name != best and src_votes.get(best, 0) > src_votes.get(s_name, 0):
+                    errs.append("`%s` is used as the source vertex here but `%s` is the source in the other cases" % (s_name, best))
+            if errs:
+                ctx.bad("split_oct_domain::%s derives a relation from the bounds with `%s` and `%s`: %s - the resulting bound mixes a "
+                        "lower with an upper bound (join of {x,y in [-10,0]} and {-x-y <= 5} excludes (-10,-10))" %
+                        (fn["name"], src(x["c"])[:30], src(y["c"])[:30], "; ".join(errs)), fn, y["c"],
+                        sig="oct-twin-lookup:%s" % fn["name"])
+            else:
+                ctx.ok("%s: %s / %s" % (fn["name"], src(x["c"])[:24], src(y["c"])[:24]), fn, x["c"])
+    if n == 0:
+        ctx.fail("rule C04.r10: no paired twin lookups found in split_oct.hpp")
+
+
+RULES += [r10_oct_twin_lookups]
